@@ -57,7 +57,9 @@ func AddInternalTX(proposalMasterStore *governance.ProposalMasterStore, validato
 
 	failedProposals := proposals.WithPrefixType(governance.ProposalStateFailed)
 	failedProposals.Iterate(func(id governance.ProposalID, proposal *governance.Proposal) bool {
-		if proposal.Status == governance.ProposalStatusCompleted && proposal.Outcome == governance.ProposalOutcomeCompletedNo {
+		// voted down, or expired undecided
+		if proposal.Status == governance.ProposalStatusCompleted &&
+			(proposal.Outcome == governance.ProposalOutcomeCompletedNo || proposal.Outcome == governance.ProposalOutcomeInsufficientVotes) {
 			tx, err := GetFinalizeTX(proposal.ProposalID, validator)
 			if err != nil {
 				logger.Error("Error in building TX of type RequestDeliverTx(finalize)", err)
